@@ -24,13 +24,15 @@ use vstd::std_specs::convert::*;
 
 
 def modules(repo):
-    from . import core_error, core_common, core_context, profiles_common, nicknames
-    spec = Module('spec', None, [Text(rd('spec_spaces.rs')), Text(rd('spec_core.rs'))], header='use super::*;\nuse crate::vx::*;\n')
+    from . import core_error, core_common, core_context, core_stringclasses, core_profile, profiles_common, nicknames
+    spec = Module('spec', None, [Text(rd('spec_spaces.rs')), Text(rd('spec_core.rs')), Text(rd('spec_stabilize.rs'))], header='use super::*;\nuse crate::vx::*;\n')
     core = Module('precis_core', None, [
         core_error.derived_property_enum(repo),
         core_error.module(repo),
         core_common.module(repo),
         core_context.module(repo),
+        core_stringclasses.module(repo),
+        core_profile.module(repo),
     ], header='use super::*;\npub use self::error::{Error, UnexpectedError, CodepointInfo};\n')
     profiles = Module('precis_profiles', None, [
         profiles_common.module(repo),
